@@ -278,3 +278,78 @@ def validate(trace_path, invariants, properties, module="TraceEco", timeout=1800
     finally:
         if not keep:
             shutil.rmtree(d, ignore_errors=True)
+
+
+# ---------------------------------------------------------------- edge cover
+def dump_states(cfg_name, module="MC_Eco", timeout=900):
+    """Exhaustive TLC run with -dump: returns the distinct states (dicts)."""
+    d = scratch("dump")
+    try:
+        _copy_spec(d)
+        cfg = strip_props(open(os.path.join(SPEC, "cfg", cfg_name + ".cfg")).read())
+        open(os.path.join(d, module + ".cfg"), "w").write(cfg)
+        rc, out, wall = run_tlc(d, module + ".tla", ["-dump", os.path.join(d, "states")], timeout, workers=NCPU)
+        if "Model checking completed" not in out:
+            raise Inconclusive("state dump of %s did not complete:\n%s" % (cfg_name, out[-1500:]))
+        txt = open(os.path.join(d, "states.dump")).read()
+        parts = re.split(r"^State \d+:\s*$", txt, flags=re.M)[1:]
+        return [tlaval.parse_state(p) for p in parts]
+    finally:
+        shutil.rmtree(d, ignore_errors=True)
+
+
+def edge_messages(cfg_name, states, module="MC_Eco", timeout=1800):
+    """For every state the full message domain of the configuration (EdgeGen.tla)."""
+    d = scratch("edges")
+    try:
+        _copy_spec(d)
+        with open(os.path.join(d, "states.ndjson"), "w") as f:
+            for s in states:
+                f.write(json.dumps(s["st"]) + "\n")
+        cfg = strip_props(open(os.path.join(SPEC, "cfg", cfg_name + ".cfg")).read())
+        cfg = re.sub(r"^SPECIFICATION .*$", "INIT Init\nNEXT EStop", cfg, flags=re.M)
+        cfg = re.sub(r"^VIEW .*\n", "", cfg, flags=re.M)
+        open(os.path.join(d, "EdgeGen.cfg"), "w").write(cfg)
+        env_opts = os.environ.get("JAVA_TOOL_OPTIONS", "")
+        os.environ["JAVA_TOOL_OPTIONS"] = (env_opts + " -Xss512m").strip()
+        try:
+            rc, out, wall = run_tlc(d, "EdgeGen.tla", [], timeout, workers=1)
+        finally:
+            os.environ["JAVA_TOOL_OPTIONS"] = env_opts
+        ep = os.path.join(d, "edges.ndjson")
+        if not os.path.exists(ep):
+            raise Inconclusive("EdgeGen produced no edges:\n" + out[-2000:])
+        res = []
+        for ln in open(ep):
+            e = json.loads(ln)
+            res.append(e["ms"])
+        return res
+    finally:
+        shutil.rmtree(d, ignore_errors=True)
+
+
+def run_harness_parallel(binary, behaviours_path, trace_path, shards=None, timeout=3600):
+    """Splits the behaviours over several harness processes; concatenates the traces in order."""
+    import concurrent.futures
+    shards = shards or min(NCPU, 12)
+    lines = open(behaviours_path).read().splitlines()
+    if len(lines) < shards * 4:
+        return run_harness(binary, behaviours_path, trace_path, timeout)
+    d = scratch("shards")
+    try:
+        per = (len(lines) + shards - 1) // shards
+        jobs = []
+        for k in range(shards):
+            part = lines[k * per:(k + 1) * per]
+            if not part:
+                continue
+            bp, tp = os.path.join(d, "b%d.ndjson" % k), os.path.join(d, "t%d.ndjson" % k)
+            open(bp, "w").write("\n".join(part) + "\n")
+            jobs.append((bp, tp))
+        with concurrent.futures.ThreadPoolExecutor(max_workers=len(jobs)) as ex:
+            list(ex.map(lambda j: run_harness(binary, j[0], j[1], timeout), jobs))
+        with open(trace_path, "w") as out:
+            for _, tp in jobs:
+                out.write(open(tp).read())
+    finally:
+        shutil.rmtree(d, ignore_errors=True)
